@@ -228,6 +228,57 @@ func enumerate(shard, nshards int, yield func(Case)) {
 			yield(c)
 		}
 	}
+	// deep acyclic graphs with sharing: 40 schemas, each referring twice to the next, through
+	// different keywords. Anything that walks references without remembering what it has seen takes
+	// 2^39 steps; loading, validating, serialising and internalising have to stay linear. The second
+	// variant keeps the chain in another file, so that internalisation has work to do.
+	for variant, shape := range [][2]string{{"properties.a", "properties.b"}, {"allOf.0", "items"}, {"additionalProperties", "not"}, {"oneOf.0", "anyOf.0"}} {
+		for _, external := range []bool{false, true} {
+			idx++
+			if idx%nshards != shard {
+				continue
+			}
+			schemas := M{}
+			const n = 40
+			for i := 0; i < n; i++ {
+				node := M{"x-i": float64(i)}
+				if i < n-1 {
+					next := M{"$ref": fmt.Sprintf("#/components/schemas/S%02d", i+1)}
+					for _, pth := range shape {
+						parts := strings.Split(pth, ".")
+						switch {
+						case len(parts) == 2 && parts[1] == "0":
+							node[parts[0]] = []any{jv.Clone(next)}
+						case len(parts) == 2:
+							if node[parts[0]] == nil {
+								node[parts[0]] = M{}
+							}
+							node[parts[0]].(M)[parts[1]] = jv.Clone(next)
+						default:
+							node[pth] = jv.Clone(next)
+						}
+					}
+				} else {
+					node["type"] = "string"
+				}
+				schemas[fmt.Sprintf("S%02d", i)] = node
+			}
+			chain := M{"openapi": "3.0.3", "info": M{"title": "t", "version": "1"}, "paths": M{}, "components": M{"schemas": schemas}}
+			files := map[string][]byte{}
+			if external {
+				b, _ := json.Marshal(chain)
+				files["/w/chain.json"] = b
+				root := M{"openapi": "3.0.3", "info": M{"title": "t", "version": "1"}, "paths": M{"/p": M{"get": M{"responses": M{"200": M{"description": "d",
+					"content": M{"application/json": M{"schema": M{"$ref": "chain.json#/components/schemas/S00"}}}}}}}}}
+				rb, _ := json.Marshal(root)
+				files["/w/root.json"] = rb
+			} else {
+				b, _ := json.Marshal(chain)
+				files["/w/root.json"] = b
+			}
+			yield(Case{Files: files, Root: "/w/root.json", Entry: "uri", AllowExt: true, VOpts: variant})
+		}
+	}
 	// pure reference graphs: four components of one kind, each a minimal object or a reference to any
 	// of the four (itself included): every cycle of references, every tail leading into one, in every
 	// name order, for every component kind
